@@ -15,12 +15,29 @@ P = 'fsic.parser'
 Q = f'{P}.parse_terms.<locals>.process_term_match'
 
 
+def term_match_qualname(R) -> str:
+    """The function that turns one regex match into a Term: the one (at any nesting) that `return`s `Term(...)` and
+    takes the match as its parameter."""
+    from fsa.source import AnchorMissing, iter_own_nodes
+    if Q in R.repo.functions:
+        return Q
+    cands = []
+    for q, fi in R.repo.functions.items():
+        if q.startswith(P + '.') and fi.params() and any(isinstance(x, ast.Return) and is_call(x.value, 'Term') for x in iter_own_nodes(fi.node)):
+            cands.append(q)
+    if len(cands) != 1:
+        raise AnchorMissing(f'function {Q} not found (functions returning Term(...): {cands})')
+    return cands[0]
+
+
 class TermMatch:
     def __init__(self, R) -> None:
-        self.f = f = Fn(R, Q)
+        q_ = term_match_qualname(R)
+        self.q = q_
+        self.f = f = Fn(R, q_)
         ps = f.fi.params()
         if not ps:
-            raise Unsupported(f'{Q}: no parameter')
+            raise Unsupported(f'{q_}: no parameter')
         self.m = ps[0]
         self.raw_forms = [f"{self.m}.groupdict()['INDEX']", f"{self.m}.group('INDEX')", f"{self.m}['INDEX']"]
         self.ret = None
